@@ -361,7 +361,7 @@ async fn deliver_logged(world: &Arc<World>, topo: &Topo, proxy: usize, stage: u6
 }
 
 fn log_final(world: &Arc<World>) {
-    for node in 0..2 {
+    for node in 0..NODE_NAME.len() {
         let keys = world.final_contents(node);
         let seq = world.next_seq();
         world.log(seq, json!({"t": "final", "seq": seq, "node": NODE_NAME[node], "keys": keys}));
@@ -416,6 +416,8 @@ pub fn run_mig(params: &Params) -> String {
         hi: 8191,
         scan_count: params.u64("scan_count", 10).max(1),
         scan_interval: params.u64("scan_interval", 500),
+        parts: 1,
+        ndst: 1,
     };
     let pool = Arc::new(build_pool(&topo, nkeys, nout, sets));
     if pool.in_str.len() < nkeys || pool.out_str.len() < nout {
@@ -589,6 +591,8 @@ pub fn run_witness(params: &Params) -> String {
             hi: 8191,
             scan_count: params.u64("scan_count", 10).max(1),
             scan_interval: params.u64("scan_interval", 500),
+            parts: 1,
+            ndst: 1,
         }
     } else {
         Topo {
@@ -596,6 +600,8 @@ pub fn run_witness(params: &Params) -> String {
             hi: SLOT_MAX,
             scan_count: params.u64("scan_count", 10).max(1),
             scan_interval: params.u64("scan_interval", 500),
+            parts: 1,
+            ndst: 1,
         }
     };
     // ~20 other in-range string keys
@@ -800,6 +806,8 @@ pub fn run_collide(params: &Params) -> String {
         hi: 8191,
         scan_count: params.u64("scan_count", 10).max(1),
         scan_interval: params.u64("scan_interval", 500),
+        parts: 1,
+        ndst: 1,
     };
     let pool = build_pool(&topo, 8, 0, false);
     let mut inkeys = pool.in_str.clone();
@@ -969,5 +977,263 @@ pub fn run_collide(params: &Params) -> String {
         Err(_) => format!("collide timeout {}", body),
         Ok(Err(msg)) => format!("collide setup-error {}", msg),
         Ok(Ok(())) => format!("collide {}", body),
+    }
+}
+
+// ---------- several migrating tasks on the source proxy at once ----------
+async fn all_committed(world: &Arc<World>, topo: &Topo) -> bool {
+    for p in 0..topo.nproxies() {
+        let st = crate::net::mig_states(world, p).await;
+        let expect = if p == 0 {
+            topo.nparts()
+        } else {
+            (0..topo.nparts()).filter(|j| topo.part_dst(*j) == p).count()
+        };
+        if st.len() < expect || st.iter().any(|s| *s != "SwitchCommitted") {
+            return false;
+        }
+    }
+    true
+}
+
+async fn client_task_multi(world: Arc<World>, sh: Arc<Shared>, pool: Arc<Pool>, cid: u64, ops: u64, spin: bool, np: u64) {
+    let rng = Rng::new(world.seed, 0x3000_0000 + cid);
+    let slow_from = ops * 80 / 100;
+    let reserve_from = ops - std::cmp::max(3, ops / 20).min(ops);
+    for n in 0..ops {
+        if !sh.commit_done.load(Ordering::SeqCst) {
+            if n >= reserve_from {
+                while !sh.commit_done.load(Ordering::SeqCst) {
+                    tokio::time::sleep(Duration::from_millis(1)).await;
+                }
+            } else if n >= slow_from {
+                tokio::time::sleep(Duration::from_millis(2 + rng.below(4))).await;
+            }
+        }
+        precise_sleep(Duration::from_micros(rng.below(301)), spin).await;
+        let cmd = gen_op(&pool, &rng, false, cid, n);
+        let first = rng.below(np) as usize;
+        client_op(&world, &sh, cid, cmd, first, Duration::from_secs(30)).await;
+    }
+}
+
+pub fn run_multi(params: &Params) -> String {
+    use crate::net::Gate;
+    let mode = params.str("mode", "directed");
+    let kind = params.str("kind", "del");
+    let seed = params.u64("seed", 1);
+    let parts = params.u64("parts", 2).max(1).min(4) as usize;
+    let ndst = params.u64("ndst", 2).max(1).min(2) as usize;
+    let conns = params.u64("conns", 1).max(1).min(8) as usize;
+    let active = params.u64("active", 0) != 0;
+    let directed = mode == "directed";
+    let nkeys = params.u64("nkeys", if directed { 12 } else { 60 }) as usize;
+    let nout = params.u64("nout", if directed { 0 } else { 16 }) as usize;
+    let clients = params.u64("clients", 6);
+    let ops = params.u64("ops", 250);
+    let lat = if directed { 0 } else { params.u64("lat", 2000) };
+    let spin = params.u64("spin", 1) != 0;
+    let out = params.str("out", "");
+    let timeout_ms = params.u64("timeout_ms", 60_000);
+    if out.is_empty() {
+        return "multi setup-error missing-out".to_string();
+    }
+    let topo = Topo {
+        lo: 0,
+        hi: 8191,
+        scan_count: params.u64("scan_count", 10).max(1),
+        scan_interval: params.u64("scan_interval", 500),
+        parts,
+        ndst,
+    };
+    let np = topo.nproxies();
+    let pool = Arc::new(build_pool(&topo, nkeys, nout, false));
+    let inkeys: Vec<Vec<u8>> = pool.in_str.clone();
+    let outkeys: Vec<Vec<u8>> = pool.out_str.clone();
+    let part_of = |k: &Vec<u8>| topo.part_of_slot(generate_slot(k)).unwrap_or(0);
+    // directed: one victim key per part (the first pool key of that part)
+    let mut victims: Vec<Vec<u8>> = vec![];
+    for j in 0..parts {
+        match inkeys.iter().find(|k| part_of(k) == j) {
+            Some(k) => victims.push(k.clone()),
+            None => return "multi setup-error no-key-for-part".to_string(),
+        }
+    }
+    let setkeys: Vec<Vec<u8>> = if directed && kind != "del" { victims.clone() } else { vec![] };
+    let mut meta = meta_json(seed, params, &topo, &inkeys, &outkeys, &setkeys);
+    meta["parts"] = json!((0..parts)
+        .map(|j| {
+            let (a, b) = topo.part_range(j);
+            json!({"lo": a, "hi": b, "dst_proxy": PROXY_NAME[topo.part_dst(j)], "dst_node": NODE_NAME[topo.part_dst(j)]})
+        })
+        .collect::<Vec<_>>());
+    meta["inkeys_part"] = json!(inkeys.iter().map(|k| part_of(k)).collect::<Vec<_>>());
+
+    let world = World::new(seed, lat, spin, params.u64("buckets", crate::store::DEFAULT_SCAN_BUCKETS), None);
+    let mut gates = vec![];
+    if directed {
+        let mut g = world.gates.lock();
+        for _ in 0..parts {
+            let gate = Gate::new(0, 0, "SCAN", vec![], Duration::from_secs(10));
+            g.push(gate.clone());
+            gates.push(gate);
+        }
+    }
+    let sh = Shared::new();
+    let rt = new_runtime();
+    let result: Arc<parking_lot::Mutex<(Vec<String>, Vec<String>, Vec<String>)>> =
+        Arc::new(parking_lot::Mutex::new((vec![], vec![], vec![])));
+
+    let scenario = {
+        let world = world.clone();
+        let sh = sh.clone();
+        let pool = pool.clone();
+        let result = result.clone();
+        let victims = victims.clone();
+        let gates = gates.clone();
+        let kind = kind.clone();
+        async move {
+            let rng = Rng::new(seed, 0x4000_0000);
+            for p in 0..np {
+                new_proxy(&world, p, conns, active);
+            }
+            for p in 0..np {
+                let r = deliver_logged(&world, &topo, p, 1).await;
+                if r != "S 4f4b" {
+                    return Err(format!("epoch1-{}-{}", PROXY_NAME[p], r.replace(' ', "_")));
+                }
+            }
+            for k in pool.in_str.iter().chain(pool.out_str.iter()) {
+                let is_victim = victims.contains(k);
+                if directed && is_victim && kind != "del" {
+                    preload(&world, vec![b("SADD"), k.clone(), b("a")]);
+                } else if directed || rng.below(100) < 70 {
+                    let mut v = b"init-".to_vec();
+                    v.extend_from_slice(k);
+                    preload(&world, vec![b("SET"), k.clone(), v]);
+                }
+            }
+            let poll = tokio::spawn(poller(world.clone(), sh.clone()));
+            let mut handles = vec![];
+            if !directed {
+                for cid in 0..clients {
+                    handles.push(tokio::spawn(client_task_multi(
+                        world.clone(),
+                        sh.clone(),
+                        pool.clone(),
+                        cid + 1,
+                        ops,
+                        spin,
+                        np as u64,
+                    )));
+                }
+                tokio::time::sleep(Duration::from_millis(10 + rng.below(21))).await;
+            }
+            sh.epoch2_delivered.store(true, Ordering::SeqCst);
+            // destinations first or source first, seed-chosen
+            let mut order: Vec<usize> = (0..np).collect();
+            if rng.below(2) == 0 {
+                order.reverse();
+            }
+            for p in order.iter() {
+                let r = deliver_logged(&world, &topo, *p, 2).await;
+                if r != "S 4f4b" {
+                    return Err(format!("epoch2-{}-{}", PROXY_NAME[*p], r.replace(' ', "_")));
+                }
+            }
+            if directed {
+                // every task's scanner stands at its first SCAN: all keys are still on the source
+                let start = std::time::Instant::now();
+                while gates.iter().any(|g| !g.holding.load(Ordering::SeqCst)) && start.elapsed() < Duration::from_secs(20) {
+                    tokio::time::sleep(Duration::from_millis(1)).await;
+                }
+                for (j, k) in victims.iter().enumerate() {
+                    let via = topo.part_dst(j);
+                    let (cmd, read) = if kind == "del" {
+                        (vec![b("DEL"), k.clone()], vec![b("GET"), k.clone()])
+                    } else {
+                        (
+                            vec![b("SDIFFSTORE"), k.clone(), b("zz-nokey1"), b("zz-nokey2")],
+                            vec![b("SMEMBERS"), k.clone()],
+                        )
+                    };
+                    let (r, _) = client_op(&world, &sh, 1, cmd, via, Duration::from_secs(10)).await;
+                    result.lock().0.push(resp_to_string(&r));
+                    let (r, _) = client_op(&world, &sh, 1, read, via, Duration::from_secs(10)).await;
+                    result.lock().1.push(resp_to_string(&r));
+                }
+                for g in gates.iter() {
+                    g.release();
+                }
+            }
+            let start = std::time::Instant::now();
+            while !all_committed(&world, &topo).await {
+                if start.elapsed() > Duration::from_secs(40) {
+                    return Err("not-committed".to_string());
+                }
+                tokio::time::sleep(Duration::from_millis(2)).await;
+            }
+            tokio::time::sleep(Duration::from_millis(rng.below(21))).await;
+            let mut order: Vec<usize> = (0..np).collect();
+            if rng.below(2) == 0 {
+                order.reverse();
+            }
+            for p in order.iter() {
+                deliver_logged(&world, &topo, *p, 3).await;
+                tokio::time::sleep(Duration::from_millis(rng.below(4))).await;
+            }
+            sh.commit_done.store(true, Ordering::SeqCst);
+            for h in handles {
+                let _ = h.await;
+            }
+            if directed {
+                for (j, k) in victims.iter().enumerate() {
+                    let read = if kind == "del" { vec![b("GET"), k.clone()] } else { vec![b("SMEMBERS"), k.clone()] };
+                    let (r, _) = client_op(&world, &sh, 2, read, topo.part_dst(j), Duration::from_secs(10)).await;
+                    result.lock().2.push(resp_to_string(&r));
+                }
+            }
+            tokio::time::sleep(Duration::from_millis(50)).await;
+            sh.stop_poller.store(true, Ordering::SeqCst);
+            let _ = poll.await;
+            log_final(&world);
+            Ok(())
+        }
+    };
+
+    let res = rt.block_on(async { tokio::time::timeout(Duration::from_millis(timeout_ms), scenario).await });
+    sh.stop_poller.store(true, Ordering::SeqCst);
+    for g in gates.iter() {
+        g.disarm();
+        g.release();
+    }
+    if !matches!(res, Ok(Ok(()))) {
+        log_final(&world);
+    }
+    let written = world.write_trace(&out, meta);
+    world.clear_handlers();
+    rt.shutdown_background();
+    if let Err(e) = written {
+        return format!("multi setup-error trace-write-{}", e.replace(' ', "_"));
+    }
+    let join = |v: &Vec<String>| if v.is_empty() { "-".to_string() } else { v.iter().map(|s| s.replace(' ', "_")).collect::<Vec<_>>().join(";") };
+    let g = result.lock();
+    let tail = format!(
+        "mode={} parts={} ndst={} committed={} client_ops={} errors={} del_replies={} reads={} final_reads={} trace={}",
+        mode,
+        parts,
+        ndst,
+        if sh.commit_done.load(Ordering::SeqCst) { 1 } else { 0 },
+        sh.client_ops.load(Ordering::Relaxed),
+        sh.errors.load(Ordering::Relaxed),
+        join(&g.0),
+        join(&g.1),
+        join(&g.2),
+        out
+    );
+    match res {
+        Err(_) => format!("multi timeout {}", tail),
+        Ok(Err(msg)) => format!("multi setup-error {} {}", msg, tail),
+        Ok(Ok(())) => format!("multi ok {}", tail),
     }
 }
